@@ -30,6 +30,8 @@ type PrintOpts struct {
 	CodeStyle int    // spelling of code block bodies (see codeStyles)
 	InitCode  string // initializer content override
 	CodeBody  string // code block text override ("{...}") for every block
+	InitSep   string // separator after the initializer block (default "\n\n")
+	HeadSpace string // separator between rule name, display name, definition operator and expression (default " ")
 }
 
 // codeStyles are block bodies exercising the code block lexer: nested
@@ -97,10 +99,14 @@ func Print(g *Grammar, o *PrintOpts) string {
 		if o.InitPos != nil {
 			*o.InitPos = b.Len()
 		}
+		isep := o.InitSep
+		if isep == "" {
+			isep = "\n\n"
+		}
 		if o.InitCode != "" {
-			b.WriteString(o.InitCode + "\n\n")
+			b.WriteString(o.InitCode + isep)
 		} else {
-			fmt.Fprintf(&b, "{\npackage %s\n}\n\n", pkg)
+			fmt.Fprintf(&b, "{\npackage %s\n}%s", pkg, isep)
 		}
 	}
 	op := o.DefOp
@@ -115,15 +121,21 @@ func Print(g *Grammar, o *PrintOpts) string {
 		if o.RulePos != nil {
 			o.RulePos[r] = b.Len()
 		}
+		hs := o.HeadSpace
+		if hs == "" {
+			hs = " "
+		} else if hs == "\x00" {
+			hs = ""
+		}
 		b.WriteString(r.Name)
 		if r.Display != "" {
-			b.WriteString(" ")
+			b.WriteString(hs)
 			if o.DispPos != nil {
 				o.DispPos[r] = b.Len()
 			}
 			b.WriteString(strconv.Quote(r.Display))
 		}
-		b.WriteString(" " + op + " ")
+		b.WriteString(hs + op + hs)
 		printExpr(&b, r.Expr, lvRecover, o)
 		if i == len(g.Rules)-1 && o.LastSep != nil {
 			b.WriteString(*o.LastSep)
